@@ -196,4 +196,13 @@ example :
     h.1.web.cache.length = 6 ∧ h.1.dns.cache = h.1.web.cache ∧ h.1.dns.pool.length = 1 ∧ h.1.web.pool.length = 0 := by
   decide +kernel
 
+/-- `c13_matchRequest_top` instantiated on these lists (its hypotheses are satisfiable), after ANY history. -/
+example (before : List QEv) :
+    (runMatchRequest (envNet exIO exPx exLists (PatModel.ofOracle exPx.ext.pat)) (engineCtx exPx exLists)
+        (runQHistory (envNet exIO exPx exLists (PatModel.ofOracle exPx.ext.pat)) (engineCtx exPx exLists) {} before).1
+        (Compose3.requestOf exPx.ext (lit "http://x.org/ad/-ads-/banner") (lit "http://c.org/page") 4)).2 =
+      Compose3.engineMatchRequest exIO exPx exLists ⟨exLists, []⟩ [] []
+        (lit "http://x.org/ad/-ads-/banner") (lit "http://c.org/page") 4 :=
+  c13_matchRequest_top exIO exPx exLists _ rfl ⟨exLists, []⟩ rfl [] [] before _ _ 4
+
 end UF.C13
